@@ -203,6 +203,12 @@ impl NamespaceActor {
             } else if new_flag > 0 {
                 let mut new_value = v.as_ref().to_owned();
                 new_value.flag = new_flag;
+                if from_flag & NamespaceFromFlags::USER.bits() != 0 {
+                    // the user's namespace is gone; what stays is the namespace that is still in use by
+                    // configs / services, and that one is listed under its id - as it is after a restart,
+                    // when it is rebuilt from the data (the snapshot only holds user namespaces)
+                    new_value.namespace_name = namespace_id.as_str().to_owned();
+                }
                 self.data.insert(namespace_id, Arc::new(new_value));
             } else {
                 //删除
